@@ -67,7 +67,7 @@ func fillStars(r *rand.Rand, p string) string {
 
 // NCLI is the number of inputs that also go to the CLI channel; the input right
 // after them is the fixed dependency-ring slot (in-process channel only).
-func NCLI(nSeeds int) int { return nSeeds + h.Pick(600, 8000) }
+func NCLI(nSeeds int) int { return nSeeds + h.Pick(550, 8000) }
 
 // GenInput builds input number i from the corpus. It is a pure function of
 // (VERIF_SEED, i).
